@@ -152,19 +152,76 @@ class ExternalVariableCollector(NodeVisitor):
         self.used -= self.funcnames
 
     def visit_FunctionDef(self, node):
-        self._defines(node)
+        if not self.funcnames:
+            # The function being analyzed itself
+            self.funcnames.add(node.name)
+            self.generic_visit(node)
+        else:
+            args = node.args
+            defaults = [*args.defaults, *filter(None, args.kw_defaults)]
+            self._defines(node)
+            self._nested_scope(
+                inside=[*ast.iter_child_nodes(args), *node.body],
+                outside=[*node.decorator_list, *defaults],
+                skip=defaults,
+            )
+
+    visit_AsyncFunctionDef = visit_FunctionDef
+
+    def visit_Lambda(self, node):
+        args = node.args
+        defaults = [*args.defaults, *filter(None, args.kw_defaults)]
+        self._nested_scope(
+            inside=[*ast.iter_child_nodes(args), node.body],
+            outside=defaults,
+            skip=defaults,
+        )
 
     def visit_ClassDef(self, node):
         # Like a nested function, a class statement binds its name locally
         self._defines(node)
+        self._nested_scope(
+            inside=node.body,
+            outside=[*node.decorator_list, *node.bases, *node.keywords],
+        )
+
+    def visit_ListComp(self, node):
+        first, *others = node.generators
+        results = [
+            getattr(node, field)
+            for field in ("elt", "key", "value")
+            if hasattr(node, field)
+        ]
+        self._nested_scope(
+            inside=[first.target, *first.ifs, *others, *results],
+            outside=[first.iter],
+            comprehension=True,
+        )
+
+    visit_SetComp = visit_DictComp = visit_GeneratorExp = visit_ListComp
 
     def _defines(self, node):
-        if self.funcnames:
-            # Not the function being analyzed itself: the statement binds
-            # a local variable of that function
-            self._bound_in_body(node.name)
+        # The statement binds a local variable of the function
+        self._bound_in_body(node.name)
         self.funcnames.add(node.name)
-        self.generic_visit(node)
+
+    def _nested_scope(self, inside, outside, skip=(), comprehension=False):
+        # A nested function, lambda, class body or comprehension is a scope
+        # of its own: what it binds is not a variable of this function, but
+        # what it reads from outside may be.
+        for node in outside:
+            self.visit(node)
+        sub = _NestedScopeCollector(comprehension)
+        for node in inside:
+            if not any(node is x for x in skip):
+                sub.visit(node)
+        self.used |= sub.used - (sub.assigned - sub.declared)
+        for name in sub.hoisted:
+            self._hoist(name)
+
+    def _hoist(self, name):
+        # Target of := in a comprehension: bound in the enclosing function
+        self._bound_in_body(name)
 
     def visit_Name(self, node):
         if isinstance(node.ctx, ast.Load):
@@ -200,6 +257,39 @@ class ExternalVariableCollector(NodeVisitor):
             self.vardoc[node.arg] = self.comments[node.lineno]
         self.provenance[node.arg] = "argument"
         self.assigned.add(node.arg)
+
+
+class _NestedScopeCollector(ExternalVariableCollector):
+    """Collect what a scope nested in the analyzed function binds and reads."""
+
+    def __init__(self, comprehension):
+        self.used = set()
+        self.assigned = set()
+        self.comments = {}
+        self.vardoc = {}
+        self.provenance = {}
+        self.funcnames = {None}
+        self.declared = set()
+        self.hoisted = set()
+        self.comprehension = comprehension
+
+    def visit_Global(self, node):
+        self.declared.update(node.names)
+
+    visit_Nonlocal = visit_Global
+
+    def _hoist(self, name):
+        if self.comprehension:
+            self.hoisted.add(name)
+        else:
+            self._bound_in_body(name)
+
+    def visit_NamedExpr(self, node):
+        if self.comprehension:
+            self.hoisted.add(node.target.id)
+            self.visit(node.value)
+        else:
+            self.generic_visit(node)
 
 
 class SimpleVariableCollector(NodeVisitor):
